@@ -331,6 +331,10 @@ type lbEntry struct {
 	name       string
 	maxL, maxD int // bounds for the entry function itself
 	recL, recR int // bounds for every recursive function it reaches
+	// iter: functions that perform the iteration the property exempts for
+	// this entry (tabled by name); they are not entered, so what is bounded is
+	// the seek that precedes the iteration.
+	iter []string
 }
 
 func runLOADBOUND(c *Ctx) {
@@ -342,26 +346,32 @@ func runLOADBOUND(c *Ctx) {
 		c.Note("Mast.debug may be set (%s): debug-print paths are NOT pruned", pr.debugWhy)
 		c.Undecided(nil, "-", "Mast.debug may be set", "cannot prune debug-print paths: "+pr.debugWhy+"; the bound would have to hold with full-tree dumps enabled")
 	}
-	A := &lbAnalysis{c: c, pr: pr, res: newLpResolver(c), exempt: map[*ssa.Function]bool{}, calls: map[*ssa.Function][]lbCall{},
-		mayLd: map[*ssa.Function]bool{}, scc: map[*ssa.Function]int{}, cyclic: map[int]bool{}, cost: map[*ssa.Function]lbCost{}, loopMemo: map[*ssa.Function]*lbLoopInfo{}}
-	// the property exempts height changes: table of the two height-change functions
-	for _, n := range []string{"(*Mast).grow", "(*Mast).shrink"} {
-		if fn := c.MustFunc(n); fn != nil {
-			A.exempt[fn] = true
+	res := newLpResolver(c)
+	mk := func(extra []string) *lbAnalysis {
+		A := &lbAnalysis{c: c, pr: pr, res: res, exempt: map[*ssa.Function]bool{}, calls: map[*ssa.Function][]lbCall{},
+			mayLd: map[*ssa.Function]bool{}, scc: map[*ssa.Function]int{}, cyclic: map[int]bool{}, cost: map[*ssa.Function]lbCost{}, loopMemo: map[*ssa.Function]*lbLoopInfo{}}
+		// the property exempts height changes: table of the two height-change functions
+		for _, n := range append([]string{"(*Mast).grow", "(*Mast).shrink"}, extra...) {
+			if fn := c.MustFunc(n); fn != nil {
+				A.exempt[fn] = true
+			}
 		}
+		A.computeMayLoad()
+		A.sccs(append([]*ssa.Function(nil), c.P.Funcs...))
+		return A
 	}
+	A := mk(nil)
 	table := []lbEntry{
-		{"(*Mast).Get", 1, 1, 1, 1},
-		{"(*Mast).Insert", 2, 2, 2, 2},
-		{"(*Mast).Delete", 2, 2, 2, 2},
-		{"(*Root).LoadMast", 1, 0, 0, 0},
-		{"(*Mast).Clone", 1, 0, 0, 0},
-		{"(*Mast).Cursor", 2, 0, 0, 0},
+		{"(*Mast).Get", 1, 1, 1, 1, nil},
+		{"(*Mast).Insert", 2, 2, 2, 2, nil},
+		{"(*Mast).Delete", 2, 2, 2, 2, nil},
+		{"(*Root).LoadMast", 1, 0, 0, 0, nil},
+		{"(*Mast).Clone", 1, 0, 0, 0, nil},
+		{"(*Mast).Cursor", 2, 0, 0, 0, nil},
+		// SeekIter = a lookup-like seek (one read per level down to the leaves,
+		// height+1 in all) followed by the exempt iteration
+		{"(*Mast).SeekIter", 1, 1, 1, 1, []string{"(*mastNode).seekIter"}},
 	}
-	A.computeMayLoad()
-	var all []*ssa.Function
-	all = append(all, P.Funcs...)
-	A.sccs(all)
 
 	// anchor: the read primitive must exist
 	anyLoad := false
@@ -377,17 +387,22 @@ func runLOADBOUND(c *Ctx) {
 
 	reportedLoop := map[string]bool{}
 	checkedFn := map[*ssa.Function]lbEntry{} // strictest bounds seen for a recursive function
+	A0 := A
 	for _, e := range table {
 		entry := c.MustFunc(e.name)
 		if entry == nil {
 			continue
+		}
+		A := A0
+		if len(e.iter) > 0 {
+			A = mk(e.iter)
 		}
 		reach, prev := A.reach([]*ssa.Function{entry})
 		var fns []*ssa.Function
 		for fn := range reach {
 			fns = append(fns, fn)
 		}
-		sort.Slice(fns, func(i, j int) bool { return fns[i].Pos() < fns[j].Pos() })
+		sort.Slice(fns, func(i, j int) bool { return ir.PosLess(fns[i].Pos(), fns[j].Pos()) })
 
 		// (a) no may-load call inside a loop of a reachable function
 		for _, fn := range fns {
